@@ -13,6 +13,18 @@
   OBLIGATION c30_lifecycle_stages
   OBLIGATION c30_lifecycle
   OBLIGATION c30_lifecycle_family
+  OBLIGATION c30_lifecycle_front_forms
+  OBLIGATION c30_lifecycle_family_forms
+  OBLIGATION c30_parse_hook_sees_text
+  OBLIGATION c30_seeded_preparsed_skips_parse_hook
+  OBLIGATION c30_seeded_preparsed_witness
+  OBLIGATION c30_rewriting
+  OBLIGATION c30_lifecycle_rewriting
+  OBLIGATION c30_lifecycle_batch
+  OBLIGATION c30_stream_stages
+  OBLIGATION c30_lifecycle_stream
+  OBLIGATION c30_lifecycle_stream_family
+  OBLIGATION c30_dynamic_stream_query_witness
   OBLIGATION c30_passthrough_needed
   OBLIGATION c30_fast_unknown_field_witness
   OBLIGATION c30_resolve_once_per_invocation
@@ -92,13 +104,84 @@ def MarksOnly (t : List Ev) : Prop := ∀ e ∈ t, ∃ b s, e = Ev.mark b s
 section
 variable {Req Doc VR Op Resp E : Type}
 
+theorem opened_append (a b : List Ev) : opened (a ++ b) = opened a ++ opened b := by
+  simp [opened, List.filterMap_append]
+
+theorem opened_site (s : Site) (t : List Ev) :
+    opened (Ev.mark true s :: t ++ [Ev.mark false s]) = s.hook :: opened t := by
+  show opened ([Ev.mark true s] ++ t ++ [Ev.mark false s]) = _
+  rw [opened_append, opened_append]; simp [opened]
+
+theorem opened_site' (s : Site) (t : List Ev) :
+    opened (Ev.mark true s :: (t ++ [Ev.mark false s])) = s.hook :: opened t := opened_site s t
+
+theorem MarksOnly.nil : MarksOnly [] := fun _ h => by simp at h
+
+theorem MarksOnly.append {a b : List Ev} (ha : MarksOnly a) (hb : MarksOnly b) : MarksOnly (a ++ b) := by
+  intro e he
+  rcases List.mem_append.mp he with h | h
+  · exact ha e h
+  · exact hb e h
+
+theorem MarksOnly.site (s : Site) {t : List Ev} (h : MarksOnly t) : MarksOnly (Ev.mark true s :: t ++ [Ev.mark false s]) := by
+  intro e he
+  simp only [List.cons_append, List.mem_cons, List.mem_append, List.not_mem_nil, or_false] at he
+  rcases he with rfl | he | rfl
+  · exact ⟨_, _, rfl⟩
+  · exact h e he
+  · exact ⟨_, _, rfl⟩
+
+theorem MarksOnly.flatten {ts : List (List Ev)} (h : ∀ t ∈ ts, MarksOnly t) : MarksOnly ts.flatten := by
+  intro e he
+  obtain ⟨t, ht, het⟩ := List.mem_flatten.mp he
+  exact h t ht e het
+
+/-- the sites of the extension-free front:  prepare_request · parse_query (unless the variant skips
+    it for a pre-parsed document) · validation iff the parse future succeeded -/
+theorem opened_frontMarks (P : PDefects) (B : Base Req Doc VR Op Resp E) (req : Req) :
+    opened (frontMarks P B req) =
+      Hook.prepare :: ((if P.preparsedSkipsParseHooks && (B.preparsed req).isSome then [] else [Hook.parse]) ++
+        (match parseFut B req with
+         | .error _ => []
+         | .ok _ => [Hook.validation])) := by
+  simp only [frontMarks, parseMarks]
+  cases hp : parseFut B req <;> split <;> simp [opened]
+
+theorem frontMarks_marksOnly (P : PDefects) (B : Base Req Doc VR Op Resp E) (req : Req) :
+    MarksOnly (frontMarks P B req) := by
+  have hsite : ∀ s : Site, MarksOnly [Ev.mark true s, Ev.mark false s] := fun s => MarksOnly.site s MarksOnly.nil
+  simp only [frontMarks, parseMarks]
+  refine ((hsite _).append ?_).append ?_
+  · split
+    · exact MarksOnly.nil
+    · exact hsite _
+  · cases parseFut B req
+    · exact MarksOnly.nil
+    · exact hsite _
+
+/-- the extension-free request body, explicitly -/
+theorem stagesP_nil (P : PDefects) (B : Base Req Doc VR Op Resp E) (req : Req) :
+    stagesP P B ([] : List (Ext Req Doc VR Resp E)) req =
+      match frontVal B req with
+      | .error e => (B.fromErrors e, frontMarks P B req)
+      | .ok (r, d, vr, op) =>
+        ((B.exec (resolveAt ([] : List (Ext Req Doc VR Resp E))) false r d op vr).1,
+          frontMarks P B req ++ (Ev.mark true { hook := .execute } ::
+            (B.exec (resolveAt ([] : List (Ext Req Doc VR Resp E))) false r d op vr).2 ++ [Ev.mark false { hook := .execute }])) := by
+  simp only [stagesP, front_nil, atSite, runChain, List.map_nil, List.isEmpty_nil, Bool.not_true]
+  cases frontVal B req with
+  | error e => rfl
+  | ok q => obtain ⟨r, d, vr, op⟩ := q; rfl
+
 /-- LIFECYCLE, stages: without extensions the sites are opened in the order
-    request, prepare_request, parse_query, then validation iff parsing succeeded, then execute iff
-    validation succeeded and an operation was selected, then the executor's (resolve) sites. -/
+    request, prepare_request, parse_query, then validation iff the parse future succeeded, then
+    execute iff validation succeeded and an operation was selected, then the executor's (resolve)
+    sites.  WHATEVER THE REQUEST FORM: `parseFut` is the pre-parsed document when the request
+    carries one and the parsed text otherwise; the parse site is there in both cases. -/
 theorem c30_lifecycle_stages (B : Base Req Doc VR Op Resp E) (req : Req) :
     opened (execute B ([] : List (Ext Req Doc VR Resp E)) req).2 =
       [.request, .prepare, .parse] ++
-        (match B.parse req with
+        (match parseFut B req with
          | .error _ => []
          | .ok doc => Hook.validation ::
            (match B.validate req doc with
@@ -107,16 +190,72 @@ theorem c30_lifecycle_stages (B : Base Req Doc VR Op Resp E) (req : Req) :
               match B.selectOp req doc with
               | .error _ => []
               | .ok op => Hook.execute :: opened (B.exec (resolveAt ([] : List (Ext Req Doc VR Resp E))) false req doc op vr).2)) := by
-  simp only [execute, stages, prepareAt, atSite, runChain, runPrepare, List.map_nil]
-  cases hp : B.parse req with
-  | error e => simp [opened]
+  simp only [execute, executeP, atSite, runChain, List.map_nil]
+  rw [opened_site, stagesP_nil]
+  have hm := opened_frontMarks ({} : PDefects) B req
+  simp only [Bool.false_and, Bool.false_eq_true, if_false] at hm
+  simp only [frontVal]
+  cases hp : parseFut B req with
+  | error e => simp only [hp] at hm ⊢; simp [hm]
   | ok doc =>
+    simp only [hp] at hm
     cases hv : B.validate req doc with
-    | error e => simp [opened, hv]
+    | error e => simp [hm, hv]
     | ok vr =>
       cases hs : B.selectOp req doc with
-      | error e => simp [opened, hv, hs]
-      | ok op => simp [opened, hv, hs, List.filterMap_append]
+      | error e => simp [hm, hv, hs]
+      | ok op => simp [hm, hv, hs, opened_append, opened_site']
+
+/-- without extensions a request emits site markers only, if its executor does -/
+theorem executeP_nil_marksOnly (P : PDefects) (B : Base Req Doc VR Op Resp E)
+    (hx : ∀ r d op vr, MarksOnly (B.exec (resolveAt ([] : List (Ext Req Doc VR Resp E))) false r d op vr).2) (req : Req) :
+    MarksOnly (executeP P B ([] : List (Ext Req Doc VR Resp E)) req).2 := by
+  simp only [executeP, atSite, runChain, List.map_nil]
+  apply MarksOnly.site
+  rw [stagesP_nil]
+  cases frontVal B req with
+  | error e => exact frontMarks_marksOnly P B req
+  | ok q =>
+    obtain ⟨r, d, vr, op⟩ := q
+    exact (frontMarks_marksOnly P B req).append (MarksOnly.site _ (hx r d op vr))
+
+theorem frontMarks_bal (P : PDefects) (B : Base Req Doc VR Op Resp E) (req : Req) :
+    Bal (frontMarks P B req) ∧ fieldOpens (frontMarks P B req) = 0 := by
+  have hsite : ∀ s : Site, Bal [Ev.mark true s, Ev.mark false s] := fun s => Bal.site s Bal.nil
+  simp only [frontMarks, parseMarks]
+  constructor
+  · refine ((hsite _).append ?_).append ?_
+    · split
+      · exact Bal.nil
+      · exact hsite _
+    · cases parseFut B req
+      · exact Bal.nil
+      · exact hsite _
+  · cases parseFut B req <;> split <;> simp [fieldOpens, isFieldOpen, isFieldSite]
+
+/-- without extensions the trace of a request is well bracketed and opens as many field sites as
+    its executor does (`m` = what the executor's field sites are counted against) -/
+theorem executeP_nil_once (P : PDefects) (B : Base Req Doc VR Op Resp E) (m : Resp → Nat)
+    (hm : ∀ e, m (B.fromErrors e) = 0)
+    (hx : ∀ r d op vr, Bal (B.exec (resolveAt ([] : List (Ext Req Doc VR Resp E))) false r d op vr).2 ∧
+      fieldOpens (B.exec (resolveAt ([] : List (Ext Req Doc VR Resp E))) false r d op vr).2 =
+        m (B.exec (resolveAt ([] : List (Ext Req Doc VR Resp E))) false r d op vr).1) (req : Req) :
+    Bal (executeP P B ([] : List (Ext Req Doc VR Resp E)) req).2 ∧
+    fieldOpens (executeP P B ([] : List (Ext Req Doc VR Resp E)) req).2 =
+      m (executeP P B ([] : List (Ext Req Doc VR Resp E)) req).1 := by
+  simp only [executeP, atSite, runChain, List.map_nil]
+  rw [stagesP_nil]
+  obtain ⟨hb, hf⟩ := frontMarks_bal P B req
+  cases frontVal B req with
+  | error e =>
+    refine ⟨Bal.site _ hb, ?_⟩
+    rw [fieldOpens_site]; simp [hf, hm, isFieldSite]
+  | ok q =>
+    obtain ⟨r, d, vr, op⟩ := q
+    obtain ⟨h1, h2⟩ := hx r d op vr
+    refine ⟨Bal.site _ (hb.append (Bal.site _ h1)), ?_⟩
+    simp only
+    rw [fieldOpens_site, fieldOpens_append, fieldOpens_site, hf, h2]; simp [isFieldSite]
 
 theorem entered_map_enter (i : Nat) (s : Site) (ls : List Nat) :
     entered i (ls.map (fun j => Ev.hook true j s)) = List.replicate (ls.count i) s.hook := by
@@ -178,6 +317,174 @@ theorem c30_lifecycle (B : Base Req Doc VR Op Resp E) (ls : List Nat) (hB : Exec
     entered i (execute B (stack ls) req).2 = opened (execute B ([] : List (Ext Req Doc VR Resp E)) req).2 := by
   rw [c30_nesting B ls hB req, entered_expand i ls _ hM, hi, flatMap_replicate_one]
 
+-- ------------------------------------------------------------------ the request form
+
+/-- LIFECYCLE OF `prepare_request`, EVERY REQUEST FORM: for every base (in particular whatever
+    `B.preparsed req` is: plain text, `parsed_query()` called beforehand, `set_parsed_query`, a
+    document injected by a prepare hook), every stack and every extension registered once, the
+    extension enters prepare_request, parse_query, and validation iff the parse future succeeded —
+    each exactly once and in that order. -/
+theorem c30_lifecycle_front_forms (B : Base Req Doc VR Op Resp E) (ls : List Nat) (req : Req)
+    (i : Nat) (hi : ls.count i = 1) :
+    entered i (front {} B (stack ls) req).2 =
+      [.prepare, .parse] ++ (match parseFut B req with
+        | .error _ => []
+        | .ok _ => [Hook.validation]) := by
+  rw [front_stack, mapT_snd, front_nil, entered_expand i ls _ (frontMarks_marksOnly {} B req), hi, flatMap_replicate_one,
+    opened_frontMarks]
+  simp
+
+/-- the parse hooks are handed the text of `request.query` (as the prepare hooks left it), never
+    the pre-parsed document: the parse site of a recording stack, explicitly, for every form -/
+theorem c30_parse_hook_sees_text (B : Base Req Doc VR Op Resp E) (ls : List Nat) (req : Req) :
+    parseAt {} B (stack ls) req =
+      (parseFut B req,
+        Ev.mark true { hook := .parse, parent := B.queryText req } ::
+          (ls.map (fun i => Ev.hook true i { hook := .parse, parent := B.queryText req }) ++
+           ls.reverse.map (fun i => Ev.hook false i { hook := .parse, parent := B.queryText req })) ++
+          [Ev.mark false { hook := .parse, parent := B.queryText req }]) := by
+  simp only [parseAt, Bool.false_and, Bool.false_eq_true, if_false, stack_map_parse, atSite, runChain_rec]
+  simp
+
+/-- WITNESS SHAPE OF THE SEEDED CHANGE (C30-r3): if the parse chain is entered only when the text
+    still has to be parsed, then for EVERY request that carries a parsed document every extension's
+    parse hook runs zero times — while the pipeline as it is runs it exactly once. -/
+theorem c30_seeded_preparsed_skips_parse_hook (B : Base Req Doc VR Op Resp E) (ls : List Nat) (req : Req)
+    (i : Nat) (hi : ls.count i = 1) (hpre : (B.preparsed req).isSome = true) :
+    (entered i (front { preparsedSkipsParseHooks := true } B (stack ls) req).2).count Hook.parse = 0 ∧
+    (entered i (front {} B (stack ls) req).2).count Hook.parse = 1 := by
+  constructor
+  · rw [front_stack, mapT_snd, front_nil, entered_expand i ls _ (frontMarks_marksOnly _ B req), hi, flatMap_replicate_one,
+      opened_frontMarks]
+    simp only [hpre, Bool.and_self, if_true, List.nil_append]
+    cases parseFut B req <;> simp
+  · rw [c30_lifecycle_front_forms B ls req i hi]
+    cases parseFut B req <;> simp
+
+/-- REWRITING: a stack of recording extensions whose prepare hooks rewrite the request (replace the
+    text, inject a parsed document, change variables, set the operation name — any functions
+    `Req → Req`) gives the response and the trace of the plain recording stack on the rewritten
+    request.  Also for the stream API. -/
+theorem c30_rewriting (P : PDefects) (B : Base Req Doc VR Op Resp E) (lfs : List (Nat × (Req → Req))) (req : Req) :
+    executeP P B (stackRw lfs) req = executeP P B (stack (lfs.map (·.1))) (rewritten lfs req) :=
+  executeP_stackRw P B lfs req
+
+/-- LIFECYCLE under rewriting prepare hooks: every extension registered once enters the sites of
+    the extension-free run OF THE REWRITTEN REQUEST, once each and in order -/
+theorem c30_lifecycle_rewriting (B : Base Req Doc VR Op Resp E) (lfs : List (Nat × (Req → Req)))
+    (hB : ExecNatural B (lfs.map (·.1))) (req : Req)
+    (hM : MarksOnly (execute B ([] : List (Ext Req Doc VR Resp E)) (rewritten lfs req)).2)
+    (i : Nat) (hi : (lfs.map (·.1)).count i = 1) :
+    entered i (execute B (stackRw lfs) req).2 =
+      opened (execute B ([] : List (Ext Req Doc VR Resp E)) (rewritten lfs req)).2 := by
+  show entered i (executeP {} B (stackRw lfs) req).2 = _
+  rw [c30_rewriting]
+  exact c30_lifecycle B _ hB _ hM i hi
+
+/-- LIFECYCLE of a batch: the requests run one after the other, each with its full lifecycle -/
+theorem c30_lifecycle_batch (B : Base Req Doc VR Op Resp E) (ls : List Nat) (hB : ExecNatural B ls) (reqs : List Req)
+    (hM : ∀ r ∈ reqs, MarksOnly (execute B ([] : List (Ext Req Doc VR Resp E)) r).2)
+    (i : Nat) (hi : ls.count i = 1) :
+    entered i (executeBatch {} B (stack ls) reqs).2 =
+      reqs.flatMap (fun r => opened (execute B ([] : List (Ext Req Doc VR Resp E)) r).2) := by
+  rw [executeBatch_stack {} B ls hB, mapT_snd]
+  have hMM : MarksOnly (executeBatch {} B ([] : List (Ext Req Doc VR Resp E)) reqs).2 := by
+    simp only [executeBatch, List.map_map]
+    apply MarksOnly.flatten
+    intro t ht
+    obtain ⟨r, hr, rfl⟩ := List.mem_map.mp ht
+    exact hM r hr
+  rw [entered_expand i ls _ hMM, hi, flatMap_replicate_one]
+  simp only [executeBatch, List.map_map]
+  clear hMM hM
+  induction reqs with
+  | nil => rfl
+  | cons r reqs ih =>
+    simp only [List.map_cons, List.flatten_cons, opened_append, List.flatMap_cons, ih]
+    rfl
+
+-- ------------------------------------------------------------------ the stream API
+
+/-- the extension-free stream, explicitly -/
+theorem executeStream_nil (P : PDefects) (B : SBase Req Doc VR Op Resp E) (req : Req) :
+    (executeStream P B ([] : List (Ext Req Doc VR Resp E)) req).2 =
+      [Ev.mark true { hook := .subscribe }, Ev.mark false { hook := .subscribe }] ++ frontMarks P B.toBase req ++
+      (match frontVal B.toBase req with
+       | .error _ => []
+       | .ok (r, d, vr, op) =>
+         if B.isSub op then
+           ((B.events (resolveAt ([] : List (Ext Req Doc VR Resp E))) false r d op vr).map
+             (fun ev => Ev.mark true { hook := .execute } :: (ev ()).2 ++ [Ev.mark false { hook := .execute }])).flatten
+         else if P.streamQuerySkipsExecuteHook then (B.exec (resolveAt ([] : List (Ext Req Doc VR Resp E))) false r d op vr).2
+         else Ev.mark true { hook := .execute } ::
+           (B.exec (resolveAt ([] : List (Ext Req Doc VR Resp E))) false r d op vr).2 ++ [Ev.mark false { hook := .execute }]) := by
+  simp only [executeStream, front_nil, atSite, runChain, List.map_nil, List.isEmpty_nil, Bool.not_true]
+  cases frontVal B.toBase req with
+  | error e => simp
+  | ok q =>
+    obtain ⟨r, d, vr, op⟩ := q
+    simp only
+    cases B.isSub op with
+    | true => simp [List.map_map, Function.comp_def]
+    | false => cases P.streamQuerySkipsExecuteHook <;> simp
+
+/-- LIFECYCLE OF A STREAM, stages: subscribe, prepare_request, parse_query, validation iff the
+    parse future succeeded; then, iff an operation was selected, one execute per event of a
+    subscription (each around the event's resolve sites) or the single execute of a query /
+    mutation.  No request hook. -/
+theorem c30_stream_stages (B : SBase Req Doc VR Op Resp E) (req : Req) :
+    opened (executeStream {} B ([] : List (Ext Req Doc VR Resp E)) req).2 =
+      [.subscribe, .prepare, .parse] ++
+        (match parseFut B.toBase req with
+         | .error _ => []
+         | .ok doc => Hook.validation ::
+           (match B.validate req doc with
+            | .error _ => []
+            | .ok vr =>
+              match B.selectOp req doc with
+              | .error _ => []
+              | .ok op =>
+                if B.isSub op then
+                  (B.events (resolveAt ([] : List (Ext Req Doc VR Resp E))) false req doc op vr).flatMap
+                    (fun ev => Hook.execute :: opened (ev ()).2)
+                else Hook.execute :: opened (B.exec (resolveAt ([] : List (Ext Req Doc VR Resp E))) false req doc op vr).2)) := by
+  rw [executeStream_nil, opened_append, opened_append]
+  have hm := opened_frontMarks ({} : PDefects) B.toBase req
+  simp only [Bool.false_and, Bool.false_eq_true, if_false] at hm
+  rw [hm]
+  simp only [frontVal]
+  have hfl : ∀ (evs : List (Unit → T Resp)),
+      opened (evs.map (fun ev => Ev.mark true { hook := .execute } :: (ev ()).2 ++ [Ev.mark false { hook := .execute }])).flatten =
+        evs.flatMap (fun ev => Hook.execute :: opened (ev ()).2) := by
+    intro evs
+    induction evs with
+    | nil => rfl
+    | cons ev evs ih =>
+      simp only [List.map_cons, List.flatten_cons, List.flatMap_cons]
+      rw [opened_append, ih, opened_site]
+  cases hp : parseFut B.toBase req with
+  | error e => simp [opened]
+  | ok doc =>
+    cases hv : B.validate req doc with
+    | error e => simp [opened, hv]
+    | ok vr =>
+      cases hs : B.selectOp req doc with
+      | error e => simp [opened, hv, hs]
+      | ok op =>
+        cases hsub : B.isSub op with
+        | true => simp only [hv, hs, hsub, if_true, hfl]; simp [opened]
+        | false => simp only [hv, hs, hsub]; simp [opened_site', opened]
+
+/-- LIFECYCLE OF A STREAM: every extension registered once enters exactly the sites of the
+    extension-free stream, once each, in order -/
+theorem c30_lifecycle_stream (B : SBase Req Doc VR Op Resp E) (ls : List Nat)
+    (hB : ExecNatural B.toBase ls) (hE : EventsNatural B ls) (req : Req)
+    (hM : MarksOnly (executeStream {} B ([] : List (Ext Req Doc VR Resp E)) req).2)
+    (i : Nat) (hi : ls.count i = 1) :
+    entered i (executeStream {} B (stack ls) req).2 =
+      opened (executeStream {} B ([] : List (Ext Req Doc VR Resp E)) req).2 := by
+  rw [executeStream_stack {} B ls hB hE req, mapT_snd, entered_expand i ls _ hM, hi, flatMap_replicate_one]
+
 /-- NEGATIVE SIDE: pass-through is needed.  An extension whose request hook answers by itself
     (never running the rest of the chain) determines the response. -/
 def shortCircuit (r : Resp) : Ext Req Doc VR Resp E :=
@@ -187,7 +494,7 @@ theorem c30_passthrough_needed (B : Base Req Doc VR Op Resp E) (req : Req) (r : 
     (hr : r ≠ (execute B ([] : List (Ext Req Doc VR Resp E)) req).1) :
     (execute B [shortCircuit r] req).1 ≠ (execute B ([] : List (Ext Req Doc VR Resp E)) req).1 := by
   have : (execute B [shortCircuit r] req).1 = r := by
-    simp [execute, atSite, runChain, shortCircuit]
+    simp [execute, executeP, atSite, runChain, shortCircuit]
   rw [this]; exact hr
 end
 
@@ -197,41 +504,29 @@ theorem filter_marks_hom : Hom (List.filter (fun e => match e with | Ev.mark _ _
   ⟨rfl, fun a b => List.filter_append ..⟩
 
 /-- the executor of the family, run without extensions, emits site markers only -/
-theorem family_marksOnly (D : AGV.Model.ExecStatic.Defects) (X : XDefects) (req : CaseReq) (doc : Doc) (op : OpDef) (vr : Cache) :
-    MarksOnly ((caseBase D X).exec (resolveAt ([] : List (Ext CaseReq Doc Cache Resp Stage))) false req doc op vr).2 := by
+theorem runOp_marksOnly (D : AGV.Model.ExecStatic.Defects) (X : XDefects) (S : Schema) (doc : Doc) (op : OpDef)
+    (raw : List (String × GValue)) (w : World) (fuel : Nat) :
+    MarksOnly (runOp D X false (resolveAt ([] : List (Ext CaseReq Doc Cache Resp Stage))) S doc op raw w fuel).2 := by
   let φ : List Ev → List Ev := List.filter (fun e => match e with | Ev.mark _ _ => true | _ => false)
   have hrel : HookRel φ (resolveAt ([] : List (Ext CaseReq Doc Cache Resp Stage))) (resolveAt ([] : List (Ext CaseReq Doc Cache Resp Stage))) := by
     intro s b1 b2 h
     simp only [resolveAt, List.map_nil, atSite, runChain, h, mapT]
     simp [φ, List.filter_append, List.filter_cons]
-  have h := runOp_rel filter_marks_hom D X false false _ _ hrel (Or.inr rfl) req.S doc op req.vars req.w req.fuel
+  have h := runOp_rel filter_marks_hom D X false false _ _ hrel (Or.inr rfl) S doc op raw w fuel
   intro e he
-  simp only [caseBase] at he
   rw [h] at he
   simp only [mapT_snd, List.mem_filter] at he
   cases e with
   | mark b s => exact ⟨b, s, rfl⟩
   | hook b i s => simp at he
 
+theorem family_marksOnly (D : AGV.Model.ExecStatic.Defects) (X : XDefects) (req : CaseReq) (doc : Doc) (op : OpDef) (vr : Cache) :
+    MarksOnly ((caseBase D X).exec (resolveAt ([] : List (Ext CaseReq Doc Cache Resp Stage))) false req doc op vr).2 :=
+  runOp_marksOnly D X req.S doc op req.vars req.w req.fuel
+
 theorem family_execute_marksOnly (D : AGV.Model.ExecStatic.Defects) (X : XDefects) (req : CaseReq) :
-    MarksOnly (execute (caseBase D X) ([] : List (Ext CaseReq Doc Cache Resp Stage)) req).2 := by
-  intro e he
-  simp only [execute, stages, prepareAt, atSite, runChain, runPrepare, List.map_nil] at he
-  have hx := family_marksOnly D X
-  cases hp : (caseBase D X).parse req with
-  | error e' => simp [hp] at he; rcases he with rfl | rfl | rfl | rfl | rfl | rfl <;> exact ⟨_, _, rfl⟩
-  | ok doc =>
-    cases hv : (caseBase D X).validate req doc with
-    | error e' => simp [hp, hv] at he; rcases he with rfl | rfl | rfl | rfl | rfl | rfl | rfl | rfl <;> exact ⟨_, _, rfl⟩
-    | ok vr =>
-      cases hs : (caseBase D X).selectOp req doc with
-      | error e' => simp [hp, hv, hs] at he; rcases he with rfl | rfl | rfl | rfl | rfl | rfl | rfl | rfl <;> exact ⟨_, _, rfl⟩
-      | ok op =>
-        simp [hp, hv, hs] at he
-        rcases he with rfl | rfl | rfl | rfl | rfl | rfl | rfl | rfl | he | rfl | rfl
-        all_goals first
-          | exact ⟨_, _, rfl⟩
-          | exact hx req doc op vr e he
+    MarksOnly (execute (caseBase D X) ([] : List (Ext CaseReq Doc Cache Resp Stage)) req).2 :=
+  executeP_nil_marksOnly {} (caseBase D X) (family_marksOnly D X) req
 
 /-- LIFECYCLE for the family (look-up on both paths): each of `n` stacked recording extensions
     enters exactly the hooks of the extension-free sites, once each, in order. -/
@@ -240,6 +535,105 @@ theorem c30_lifecycle_family (D : AGV.Model.ExecStatic.Defects) (X : XDefects) (
     entered i (execute (caseBase D X) (stack ls) req).2 =
       opened (execute (caseBase D X) ([] : List (Ext CaseReq Doc Cache Resp Stage)) req).2 :=
   c30_lifecycle _ ls (family_natural D X hX ls) req (family_execute_marksOnly D X req) i hi
+
+/-- the document a request of the family ends up with: the pre-parsed one if the request carries
+    one (the text is then ignored), else the parsed text -/
+def carriedDoc (req : CaseReq) : Option Doc :=
+  match req.pre with
+  | some p => some p.doc
+  | none => if req.parses then some req.doc else none
+
+theorem family_parseFut (D : AGV.Model.ExecStatic.Defects) (X : XDefects) (req : CaseReq) :
+    parseFut (caseBase D X) req = match carriedDoc req with
+      | some d => .ok d
+      | none => .error .parse := by
+  simp only [parseFut, caseBase, carriedDoc]
+  cases req.pre with
+  | some p => rfl
+  | none => cases req.parses <;> rfl
+
+/-- LIFECYCLE for the family, EVERY REQUEST FORM, explicitly: whatever the request carries
+    (`req.pre = none`: plain text; `some _`: a pre-parsed document, which then is the one that is
+    validated and executed), each extension registered once enters request, prepare_request,
+    parse_query — then validation iff there is a document, execute iff it is valid and an operation
+    is selected, then the resolves — each exactly once, in this order. -/
+theorem c30_lifecycle_family_forms (D : AGV.Model.ExecStatic.Defects) (X : XDefects) (hX : X.plainPathSkipsLookup = false)
+    (ls : List Nat) (req : CaseReq) (i : Nat) (hi : ls.count i = 1) :
+    entered i (execute (caseBase D X) (stack ls) req).2 =
+      [.request, .prepare, .parse] ++
+        (match carriedDoc req with
+         | none => []
+         | some doc => Hook.validation ::
+           (match (caseBase D X).validate req doc with
+            | .error _ => []
+            | .ok vr =>
+              match (caseBase D X).selectOp req doc with
+              | .error _ => []
+              | .ok op => Hook.execute ::
+                  opened ((caseBase D X).exec (resolveAt ([] : List (Ext CaseReq Doc Cache Resp Stage))) false req doc op vr).2)) := by
+  rw [c30_lifecycle_family D X hX ls req i hi, c30_lifecycle_stages, family_parseFut]
+  cases carriedDoc req with
+  | none => simp
+  | some d =>
+    simp only [List.append_cancel_left_eq, List.cons.injEq, true_and]
+    cases hv : (caseBase D X).validate req d with
+    | error e => rfl
+    | ok vr => cases hs : (caseBase D X).selectOp req d <;> rfl
+
+theorem EvsRel.map {α β : Type} (ls : List Nat) (f1 f2 : β → Unit → T α) (h : ∀ v, f1 v () = mapT (expand ls) (f2 v ()))
+    (vs : List β) : EvsRel ls (vs.map f1) (vs.map f2) := by
+  induction vs with
+  | nil => exact EvsRel.nil
+  | cons v vs ih => exact EvsRel.cons (h v) ih
+
+/-- the events of a subscription of the family are natural in the resolve hook -/
+theorem family_events_natural (D : AGV.Model.ExecStatic.Defects) (X : XDefects) (hX : X.plainPathSkipsLookup = false)
+    (ls : List Nat) : EventsNatural (caseSBase D X) ls := by
+  intro req doc op vr
+  simp only [caseSBase, caseEvents]
+  split
+  · split
+    · apply EvsRel.map
+      intro v
+      rw [runOp_rel (expand_hom ls) D X _ false _ _ (resolveAt_rel ls) (Or.inl hX)]
+      rfl
+    · exact EvsRel.nil
+  · exact EvsRel.nil
+
+theorem family_stream_marksOnly (D : AGV.Model.ExecStatic.Defects) (X : XDefects) (req : CaseReq) :
+    MarksOnly (executeStream {} (caseSBase D X) ([] : List (Ext CaseReq Doc Cache Resp Stage)) req).2 := by
+  rw [executeStream_nil]
+  have hsite : ∀ s : Site, MarksOnly [Ev.mark true s, Ev.mark false s] := fun s => MarksOnly.site s MarksOnly.nil
+  refine ((hsite _).append (frontMarks_marksOnly _ _ _)).append ?_
+  cases frontVal (caseSBase D X).toBase req with
+  | error e => exact MarksOnly.nil
+  | ok q =>
+    obtain ⟨r, d, vr, op⟩ := q
+    simp only
+    split
+    · apply MarksOnly.flatten
+      intro t ht
+      obtain ⟨ev, hev, rfl⟩ := List.mem_map.mp ht
+      apply MarksOnly.site
+      simp only [caseSBase, caseEvents] at hev
+      split at hev
+      · split at hev
+        · obtain ⟨v, _, rfl⟩ := List.mem_map.mp hev
+          exact runOp_marksOnly D X _ _ _ _ _ _
+        · simp at hev
+      · simp at hev
+    · simp only [Bool.false_eq_true, if_false]
+      exact MarksOnly.site _ (family_marksOnly D X r d op vr)
+
+/-- LIFECYCLE OF A STREAM for the family (look-up on both paths; static `execute_stream`): each
+    extension registered once enters subscribe, prepare_request, parse_query, validation, then one
+    execute (around its resolves) per event — exactly the sites of the extension-free stream -/
+theorem c30_lifecycle_stream_family (D : AGV.Model.ExecStatic.Defects) (X : XDefects) (hX : X.plainPathSkipsLookup = false)
+    (ls : List Nat) (req : CaseReq) (i : Nat) (hi : ls.count i = 1) :
+    entered i (executeStream {} (caseSBase D X) (stack ls) req).2 =
+      opened (executeStream {} (caseSBase D X) ([] : List (Ext CaseReq Doc Cache Resp Stage)) req).2 :=
+  c30_lifecycle_stream _ ls (family_natural D X hX ls) (family_events_natural D X hX ls) req
+    (family_stream_marksOnly D X req) i hi
 
 example : [0, 1, 2].count 1 = 1 := by decide
 
@@ -365,36 +759,8 @@ theorem fieldEnters_expand (i : Nat) (ls : List Nat) (t : List Ev) (ht : MarksOn
 theorem family_execute_once (D : AGV.Model.ExecStatic.Defects) (X : XDefects) (req : CaseReq) :
     Bal (execute (caseBase D X) ([] : List (Ext CaseReq Doc Cache Resp Stage)) req).2 ∧
     fieldOpens (execute (caseBase D X) ([] : List (Ext CaseReq Doc Cache Resp Stage)) req).2 =
-      (execute (caseBase D X) ([] : List (Ext CaseReq Doc Cache Resp Stage)) req).1.res.log.length := by
-  have hx := family_once D X
-  simp only [execute, stages, prepareAt, atSite, runChain, runPrepare, List.map_nil]
-  cases hp : (caseBase D X).parse req with
-  | error e' =>
-    constructor
-    · intro st r; simp [balanced]
-    · simp [fieldOpens, isFieldOpen, isFieldSite, caseBase]
-  | ok doc =>
-    cases hv : (caseBase D X).validate req doc with
-    | error e' =>
-      simp only [hv]
-      constructor
-      · intro st r; simp [balanced]
-      · simp [fieldOpens, isFieldOpen, isFieldSite, caseBase]
-    | ok vr =>
-      cases hs : (caseBase D X).selectOp req doc with
-      | error e' =>
-        simp only [hv, hs]
-        constructor
-        · intro st r; simp [balanced]
-        · simp [fieldOpens, isFieldOpen, isFieldSite, caseBase]
-      | ok op =>
-        obtain ⟨h1, h2⟩ := hx req doc op vr
-        simp only [hv, hs, List.isEmpty_nil, Bool.not_true]
-        constructor
-        · intro st r
-          simp [balanced, h1 _ _]
-        · rw [← h2]
-          simp [fieldOpens, isFieldOpen, isFieldSite, List.filter_append]
+      (execute (caseBase D X) ([] : List (Ext CaseReq Doc Cache Resp Stage)) req).1.res.log.length :=
+  executeP_nil_once {} (caseBase D X) (fun r => r.res.log.length) (fun _ => rfl) (family_once D X) req
 
 /-- BALANCE: whatever stack of recording extensions is installed, the trace of a request of the
     family is well bracketed: every site (stage, field, list item) closes inside the site that
@@ -426,6 +792,49 @@ def okReq : CaseReq :=
 
 example : fieldEnters 1 (execute (caseBase {} {}) (stack [0, 1]) okReq).2 = 1 ∧
     (execute (caseBase {} {}) (stack [0, 1]) okReq).1.res.log.length = 1 := by decide
+
+-- ------------------------------------------------------------------ witnesses of the pipeline variants
+
+/-- `okReq` carrying its document in parsed form (`Request::parsed_query()` was called, or
+    `set_parsed_query`) -/
+def okReqPre : CaseReq := { okReq with text := "{ a }", pre := some { doc := okReq.doc, strictValid := true } }
+
+/-- WITNESS of the seeded change C30-r3 (parse chain entered only when the text has to be parsed):
+    on `{ a }` carried in parsed form, with two recording extensions, extension 1 never enters its
+    parse hook, while the pipeline as it is enters request, prepare, parse, validation, execute,
+    resolve; the response is the same, so only the trace shows it. -/
+theorem c30_seeded_preparsed_witness :
+    entered 1 (executeP { preparsedSkipsParseHooks := true } (caseBase {} {}) (stack [0, 1]) okReqPre).2 =
+      [.request, .prepare, .validation, .execute, .resolve] ∧
+    entered 1 (execute (caseBase {} {}) (stack [0, 1]) okReqPre).2 =
+      [.request, .prepare, .parse, .validation, .execute, .resolve] ∧
+    (executeP { preparsedSkipsParseHooks := true } (caseBase {} {}) (stack [0, 1]) okReqPre).1.res.val =
+      (execute (caseBase {} {}) (stack [0, 1]) okReqPre).1.res.val ∧
+    -- the plain text form is not affected by the change
+    entered 1 (executeP { preparsedSkipsParseHooks := true } (caseBase {} {}) (stack [0, 1]) okReq).2 =
+      [.request, .prepare, .parse, .validation, .execute, .resolve] := by
+  refine ⟨by decide, by decide, by rfl, by decide⟩
+
+/-- WITNESS of the pinned behaviour of `dynamic::Schema::execute_stream`
+    (`streamQuerySkipsExecuteHook`): the query `{ a }` sent through the stream API with one
+    recording extension never enters the execute hook (the static schema does). -/
+theorem c30_dynamic_stream_query_witness :
+    entered 0 (executeStream { streamQuerySkipsExecuteHook := true } (caseSBase {} {}) (stack [0]) okReq).2 =
+      [.subscribe, .prepare, .parse, .validation, .resolve] ∧
+    entered 0 (executeStream {} (caseSBase {} {}) (stack [0]) okReq).2 =
+      [.subscribe, .prepare, .parse, .validation, .execute, .resolve] := by
+  refine ⟨?_, ?_⟩ <;> decide
+
+/-- a subscription `subscription { a }` whose stream yields 5 and 6: two events, one execute each -/
+def subReq : CaseReq :=
+  { okReq with
+    S := { okReq.S with subscription := some "Query" },
+    doc := { ops := [{ ty := .subscription, name := none, vars := [], dirs := [],
+                       sels := [.field none "a" [] [] [] ⟨1, 16⟩] }], frags := [] },
+    w := { entries := [((0, "a"), .list [.leaf (.int 5), .leaf (.int 6)])] } }
+
+example : entered 1 (executeStream {} (caseSBase {} {}) (stack [0, 1]) subReq).2 =
+    [.subscribe, .prepare, .parse, .validation, .execute, .resolve, .execute, .resolve] := by decide
 
 -- ------------------------------------------------------------------ the defect of the pinned tree
 
